@@ -15,6 +15,7 @@ CHECKS = {
     "C08": ("c08", False),
     "C20": ("c20", False),
     "C11": ("c11", False),
+    "C09": ("c09", False),
 }
 
 
